@@ -20,4 +20,14 @@ Tokens(type, tlen) == CASE type = 0 -> Tok.t0 [] type = 1 -> Tok.t1 [] type = 2 
                         [] type = 4 -> Tok.t4 [] type = 5 -> Tok.t5 [] type = 6 -> Tok.t6 [] type = 7 -> Flba(tlen)
 \* the k-th token (cyclic, k >= 0)
 TokenAt(type, tlen, k) == LET ts == Tokens(type, tlen) IN ts[(k % Len(ts)) + 1]
+
+\* wide values: many distinct values per type (injective in k for k < 2^16 except BOOLEAN / short FLBA), for
+\* dictionaries with hundreds of entries (index bit widths 9, 10) and long columns
+WideAt(type, tlen, k) ==
+    CASE type = 0 -> <<k % 2>>
+      [] type \in {1, 4} -> <<k % 256, (k \div 256) % 256, (k * 7) % 256, (k * 13) % 128>>
+      [] type \in {2, 5} -> <<k % 256, (k \div 256) % 256, (k * 7) % 256, (k * 13) % 256, 0, (k * 3) % 256, (k * 5) % 256, (k * 11) % 128>>
+      [] type = 3 -> [i \in 1..12 |-> IF i = 1 THEN k % 256 ELSE IF i = 2 THEN (k \div 256) % 256 ELSE (k * i) % 256]
+      [] type = 6 -> [i \in 1..(k % 7) |-> (k + i) % 256] \o <<k % 256, (k \div 256) % 256>>
+      [] type = 7 -> [i \in 1..tlen |-> IF i = 1 THEN k % 256 ELSE IF i = 2 THEN (k \div 256) % 256 ELSE (k * i) % 256]
 =============================================================================
